@@ -222,7 +222,16 @@ def kani_harness_list(prog, want_names=True, want_rt=False):
                 hs.append(('rt_ser_%s' % v.ident, 'roundtrip:get_serializations'))
     return hs
 
-def kani_module(prog, want_names=True, want_rt=False):
+def grid_variants(prog):
+    """Variants that get a concrete format-spec twin (expensive: format!'s Arguments machinery under CBMC): fixed-name Display variants,
+    at most two per program - a multi-byte name first, then one per further variant kind."""
+    if 'Display' not in prog.derives:
+        return []
+    sc = [v for v in kani_scope(prog) if len(oracle.canonical_names(prog, v)) == 1]
+    sc.sort(key=lambda v: (not any(ord(c) > 127 for c in oracle.canonical_names(prog, v)[0]), v.kind != 'unit'))
+    return sc[:2]
+
+def kani_module(prog, want_names=True, want_rt=False, want_grid=False):
     from . import spec_parse
     E = prog.name
     inst = vspec.rust_inst(prog)
@@ -250,6 +259,19 @@ def kani_module(prog, want_names=True, want_rt=False):
         let r = En::from_str(&s);
         assert!(r == Ok(%s));
     }''' % (len(name.encode('utf-8')) + 3, pn, v.ident, val, expr, spec_parse.rust_value(prog, v)))
+    if want_grid:
+        for v in grid_variants(prog):
+            name = oracle.canonical_names(prog, v)[0]
+            nb = len(name.encode('utf-8'))
+            specs = ['{:%d}' % nb, '{:.2}', '{:*^%d.3}' % (nb + 4), '{:>%d}' % (nb + 2)]
+            checks = '\n'.join('        assert!(format!("%s", v).as_bytes() == format!("%s", %s).as_bytes());' % (sp, sp, rs_str(name)) for sp in specs)
+            out.append('''    // bounded sample of format specs on the real Formatter (width = byte length, precision 2, fill/centre, right-align)
+    #[kani::proof]
+    #[kani::unwind(%d)]
+    fn grid_%s() {
+        let v: En = %s;
+%s
+    }''' % (nb + 8, v.ident, any_value(prog, v), checks))
     if want_rt and 'EnumMessage' in prog.derives and 'EnumString' in prog.derives:
         for v in prog.variants:
             val = any_value(prog, v)
